@@ -28,7 +28,9 @@ func nonNegDecCoin(c sdk.DecCoin) bool { return !c.Amount.IsNegative() }
 
 func InvOrder(o ordertypes.Order) bool {
 	return sym.And(nonNegCoin(o.Amount), nonNegDecCoin(o.UnitPrice), o.Status >= 0, o.Status <= 7, o.Replica >= 0,
-		o.Size_ >= 1, o.Size_ < 1<<40, o.Duration < 1<<40, o.CreatedAt < 1<<40, o.Timeout < 1<<40, o.Replica < 1<<16)
+		o.Size_ >= 1, o.Size_ < 1<<40, o.Duration < 1<<40, o.CreatedAt < 1<<40, o.Timeout < 1<<40, o.Replica < 1<<16,
+		// a renewal order (operation 3) is created from a completed order with that status and is paid straight to the market
+		sym.Or(o.Operation != 3, o.Status == ordertypes.OrderCompleted))
 }
 
 func InvShard(s ordertypes.Shard) bool {
